@@ -153,4 +153,8 @@ def phc_b64_decode(string: str) -> str:
         string += "=" * (4 - (len(string) % 4))
     # NOTE: PHC B64 is the standard alphabet without padding; "-" and "_" are still
     #       accepted for strings written by older versions of phc_b64_encode().
-    return base64.b64decode(string.encode().translate(bytes.maketrans(b"-_", b"+/"))).decode()
+    # NOTE: validate=True, b64decode() would otherwise skip characters outside the alphabet
+    #       and ignore everything after a padding group.
+    return base64.b64decode(
+        string.encode().translate(bytes.maketrans(b"-_", b"+/")), validate=True
+    ).decode()
